@@ -1144,6 +1144,16 @@ def build(tier='quick', seed=0):
     nostd.append(decl('any', 'Point', custom={'with_text': 'check_point', 'form': 'path', 'callee': 'check_point', 'error': 'MyErr'},
                       derives=['Debug', 'TryFrom', 'FromStr'], tags=['nostd']))
 
+    # schemars08: a transparent derive next to the generated ones
+    full.append(decl('int', 'i32', validators=[V('greater_or_equal', '1', 1, 'lit'), V('less', '100', 100, 'lit')],
+                     derives=full_derives('int', True) + ['JsonSchema'], tags=['schemars']))
+    full.append(decl('int', 'u8', derives=full_derives('int', False) + ['JsonSchema'], tags=['schemars']))
+    full.append(decl('float', 'f64', validators=[V('finite'), V('greater', '0.0', 0.0, 'lit')],
+                     derives=full_derives('float', True, has_finite=True) + ['JsonSchema'], tags=['schemars']))
+    full.append(decl('string', 'String', sanitizers=[S('trim'), S('lowercase')], validators=[V('not_empty'), V('len_char_max', '20', 20, 'lit')],
+                     derives=full_derives('string', True) + ['JsonSchema'], tags=['schemars']))
+    full.append(decl('string', 'String', derives=['Debug', 'JsonSchema', 'From', 'Serialize', 'Deserialize'], tags=['schemars']))
+
     # validators that every value of the inner type satisfies (a bound at the edge of the domain): still declared, so still a
     # variant, a check and a message
     triv = [
@@ -1261,7 +1271,7 @@ def build(tier='quick', seed=0):
     crates = {}
     extra = '\npub const fn pred_point_c(p: &Point) -> bool { p.x != p.y }\n'
     for i, ch in enumerate(chunks):
-        crates[f'cfull{i}'] = {'features': ['serde', 'arbitrary', 'new_unchecked', 'regex'], 'std': True,
+        crates[f'cfull{i}'] = {'features': ['serde', 'arbitrary', 'new_unchecked', 'regex', 'schemars08'], 'std': True,
                                'prelude': PRELUDE_STD + PRELUDE_REGEX + extra + numeric_prelude(), 'decls': ch}
     bare = []
     for d in full:
